@@ -57,6 +57,10 @@ def run(chk: Check) -> None:
     _c07(sub)
     chk.adopt(sub, lambda o: "get_by_uuid" in o.construct or o.rule == "R07.4", "R09.4")
     _no_decode_during_load(chk)
+    from .c17 import _no_swallow
+    sub = chk.sub()
+    _no_swallow(sub)
+    chk.adopt(sub, None, "R09.1")
 
 
 def _lazy_auxdata(chk: Check) -> None:
